@@ -639,6 +639,15 @@ def search(ctx):
                     r = impl_call(ctor)
                     if not (isinstance(r, tuple) and r[1] == "ParameterSpecificationError"):
                         ctx.violation("C14:ctor-accepts", "senseless bounds/width accepted at construction", dict(kind="ctor"))
+                # a bound or a width that is not a number (0/0 from an empty selection, a failed estimate) makes no sense either
+                nan = float("nan")
+                for what, ctor in (("Uniform(nan, 1)", lambda: Uniform(nan, 1)), ("Uniform(0, nan)", lambda: Uniform(0, nan)), ("Gaussian(0, nan)", lambda: Gaussian(0, nan)),
+                                   ("BoundedGaussian(0, nan, -1, 1)", lambda: BoundedGaussian(0, nan, -1, 1)), ("BoundedGaussian(0, 1, nan, 1)", lambda: BoundedGaussian(0, 1, nan, 1)),
+                                   ("BoundedGaussian(0, 1, -1, nan)", lambda: BoundedGaussian(0, 1, -1, nan))):
+                    r = impl_call(ctor)
+                    if not (isinstance(r, tuple) and r[1] == "ParameterSpecificationError"):
+                        ctx.violation("C14:ctor-accepts:nan", "%s is accepted at construction (got %r)" % (what, r), dict(kind="ctor-nan", what=what))
+                        break
         except Exception as ex:
             import traceback
             ctx.violation("C14:raises:%s" % type(ex).__name__, "prior check raised %r" % (ex,), dict(kind="raises", tb=traceback.format_exc()[-600:]))
